@@ -1,5 +1,6 @@
 import Model.Common.Proto
 import Model.Common.ECProto
+import Model.C01.Proto
 import Generated.Curves
 open Btc
 
@@ -7,6 +8,9 @@ open Btc
 def handle (args : List String) : String :=
   match Btc.EC.ecOp args with
   | some r => r
-  | none => "bad-op"
+  | none =>
+    match Btc.C01.c01Op args with
+    | some r => r
+    | none => "bad-op"
 
 def main : IO Unit := runLoop handle
